@@ -24,6 +24,7 @@ RULE = ('Hypothesis generates opacity tables (2..200 rows, strictly increasing w
         'micron/nm/cm/m/Angstrom and cm^2/g / m^2/kg, a scale constant, and a text file layout (2..5 columns, column '
         'selection). One evaluation = one table with all relations. Non-trivial = >= 3 rows and queries both inside and '
         'outside the table; distinct = distinct canonical JSON.')
+RULE += (' ' + 'Also varied: tables that start or end exactly at 0.55 micron, table wavelengths typed in their unit with a plain decimal factor (not converted by astropy), scalar queries, wavelengths re-assigned on a queried law.')
 ASSUMPTIONS = [
     'tolerance 1e-12 relative (unit conversions round to ~1e-16); exactly -0.4 at 0.55 micron within 1e-12',
     'a query on an END node expressed in a different unit than the table may round to either side of the boundary: '
